@@ -437,6 +437,16 @@ def random_cases(draw):
     if total > 96:
         fields = [["bits", 8, False, False]]
         total = 8
+    if draw(st.integers(0, 5)) == 0:
+        # one member one step outside its range (2**(w-1) for a signed field, 2**w, -1 for an unsigned one ...)
+        idx = [i for i, f in enumerate(fields) if f[0] == "bits"]
+        if idx:
+            i = draw(st.sampled_from(idx))
+            w, signed = fields[i][1], fields[i][2]
+            lo, hi = (-(1 << (w - 1)), (1 << (w - 1)) - 1) if signed else (0, (1 << w) - 1)
+            vals = gen_vals(draw, fields)
+            vals[i] = draw(st.sampled_from([hi + 1, lo - 1]))
+            return [fields, "overflow", vals]
     if draw(st.booleans()):
         return [fields, "build", gen_vals(draw, fields)]
     return [fields, "parse", draw(st.binary(min_size=total // 8, max_size=total // 8))]
@@ -445,6 +455,15 @@ def random_cases(draw):
 def random_oracle(ctx):
     def oracle(case):
         fields, mode, payload = case
+        if mode == "overflow":
+            static, stream, params, bitstruct = constructs(fields)
+            value = to_value(fields, payload)
+            ctx.record(case, True, ["overflow"])
+            for name, con, kw in [("static", static, {}), ("bitstruct", bitstruct, {})] + ([("streaming", stream, params)] if params else []):
+                o = call(con.build, value, **kw)
+                if o.ok or not isinstance(o.exc, C.ConstructError):
+                    return Failure("C10/overflow-accepted/%s" % name, "%s build(%s) -> %r: a value outside the field's range has no bit pattern | fields=%s" % (name, short(value), o, fields))
+            return None
         if mode == "build":
             return check_layout(ctx, fields, vals=payload)
         return check_layout(ctx, fields, data=payload)
